@@ -13,6 +13,7 @@ pub mod c09_mut;
 pub mod c10;
 pub mod c11;
 pub mod c12;
+pub mod c12_double;
 pub mod c13;
 pub mod c14;
 pub mod c15;
